@@ -282,6 +282,20 @@ def cli_shard(shard_i, nshards, payload):
                     continue
                 f = rng.choice(faults)
                 bad = (f[0], vgen.render_unit(f[2], oscat=rng if i % 3 else None), {f[0]})
+            encoding = "utf-8"
+            if i % 5 == 4:
+                # an export in the old Windows encoding: header comment full of umlauts, valid declarations, blank lines,
+                # and the faulty declaration (a short one) as the very last thing in the file
+                n_uml = rng.randint(20, 60)
+                short = rng.choice([("P0004", "TYPE Rx%d : INT(10..1); END_TYPE\n" % i, {"P0004"}),
+                                    ("lexical", "TYPE Ry%d : INT ?; END_TYPE\n" % i, {"P0031", "P0002"}),
+                                    ("P0005", "TYPE Ez%d : (ea, ea); END_TYPE\n" % i, {"P0005"})])
+                body = vgen.render_unit(vgen.VGen(rng, prefix="W", avoid=payload["avoid"]).unit(with_config=False))
+                bad = (short[0], "(* %s *)\n%s%s%s" % ("".join(rng.choice("\u00e4\u00f6\u00fc\u00df\u00c4") for _ in range(n_uml)), body,
+                                                      "\n" * rng.randint(0, 2 * n_uml), short[1]), short[2])
+                encoding = "cp1252"
+                kind = 2
+                res.count("cli-cp1252-fault-at-end")
             d = os.path.join(tmp, "set%d" % i)
             os.makedirs(d)
             fn = ["good.st", "bad.st", "unit.st"] if i % 2 == 0 else core.file_names(rng, 3)
@@ -293,18 +307,18 @@ def cli_shard(shard_i, nshards, payload):
                 if j_ == linked:
                     # the file lives elsewhere and is linked into the directory
                     os.makedirs(os.path.join(tmp, "real%d" % i), exist_ok=True)
-                    open(os.path.join(tmp, "real%d" % i, n), "w").write(t)
+                    open(os.path.join(tmp, "real%d" % i, n), "w", encoding=encoding if j_ == 1 else "utf-8").write(t)
                     os.symlink(os.path.join(tmp, "real%d" % i, n), os.path.join(d, n))
                     res.count("cli-symlinked-file")
                 else:
-                    open(os.path.join(d, n), "w").write(t)
+                    open(os.path.join(d, n), "w", encoding=encoding if j_ == 1 else "utf-8").write(t)
             paths = [os.path.join(d, n) for n, _ in files]
             orders = [paths, list(reversed(paths)), [d]]
             for args in orders:
                 r = core.run_cli(["check"] + args, tmp)
                 res.evaluations += 1
                 res.count("cli")
-                case = {"files": files, "args": [os.path.basename(a) for a in args], "planted": bad[0]}
+                case = {"files": files, "args": [os.path.basename(a) for a in args], "planted": bad[0], "encoding_of_bad_file": encoding}
                 if r["watchdog"]:
                     res.inconclusive.append({"why": "cli watchdog", "case": case})
                     continue
